@@ -179,6 +179,12 @@ plan = {
    "functions": ["KSI_VerificationRule_AggregationChainMetaDataVerification", "metaDataPadding_verify", "KSI_TlvElement_getElement", "convertToNested", "filter_tags", "KSI_TlvElement_parse", "KSI_getHashLength"],
    "bound": "10 metadata record layouts (padding of length 1 / 2 / 3, TLV8 / TLV16 header, first / second / twice, even / odd record length; single element records of 21 and 33 bytes starting with 00 / 01); symbolic: N and F flags of both element headers, all value bytes",
    "instances": meta_q},
+  # shared with C19 H-7 (same source): a successful KSI_SignatureBuilder_close has sorted the chain list - the order every
+  # internal rule relies on (element 0 = chain with the longest index) - for parsed and scratch-built signatures alike
+  {"name": "hb_close_order", "src": "../C19/h7_builder_close.c", "env": ["ctx", "fmt_stub"], "tus": [], "unwind": 4, "object_bits": 10, "timeout": 120, "mem_gb": 8,
+   "functions": ["KSI_SignatureBuilder_close", "checkSignatureInternals"],
+   "bound": "KSI_SignatureBuilder_close (real) with every callee a stub of symbolic outcome, element pre-installed (parsed signature) or not: a successful close has sorted the aggregation chain list (the order the internal rules rely on); shared with C19 H-7",
+   "instances": [{"label": "scratch", "defines": ["PRE_TLV=0"]}, {"label": "preinstalled", "defines": ["PRE_TLV=1"]}]},
  ]
 }
 json.dump(plan, open(os.path.join(HERE, "plan.json"), "w"), indent=1)
